@@ -235,7 +235,9 @@ Proof.
     + exists (WDryExec i). eexists. split; [reflexivity|]. cbn [Model.step]. rewrite Ep, Hi, Ed. reflexivity.
     + destruct (timedout s) eqn:Et.
       * exists (WExecRefused i). eexists. split; [reflexivity|]. cbn [Model.step]. rewrite Ep, Hi, Ed, Et. reflexivity.
-      * exists (WExecStart i). eexists. split; [reflexivity|]. cbn [Model.step]. rewrite Ep, Hi, Ed, Et. reflexivity.
+      * destruct (create_fails c s i) eqn:Ecf.
+        -- exists (WCreateFail i). eexists. split; [reflexivity|]. cbn [Model.step]. rewrite Ep, Hi, Ed, Ecf. reflexivity.
+        -- exists (WExecStart i). eexists. split; [reflexivity|]. cbn [Model.step]. rewrite Ep, Hi, Ed, Et, Ecf. reflexivity.
   - exists (WAfter i false). eexists. split; [reflexivity|]. cbn [Model.step]. rewrite Ep, Hi. reflexivity.
   - exists (WRetryWake i). eexists. split; [reflexivity|]. cbn [Model.step]. rewrite Ep, Hi. reflexivity.
   - exists (WRepeatWake i). eexists. split; [reflexivity|]. cbn [Model.step]. rewrite Ep, Hi. reflexivity.
@@ -364,7 +366,9 @@ Proof.
       * exists (HSkip h). eexists. split; [reflexivity|]. cbn [Model.step]. rewrite Ep, Ed.
         assert (handler_eqb h h = true) as -> by (destruct h; reflexivity). reflexivity.
       * assert (handler_eqb h h = true) as Hh by (destruct h; reflexivity).
-        exists (HStart h). eexists. split; [reflexivity|]. cbn [Model.step]. rewrite Ep, Ed, Hh. reflexivity.
+        destruct (hsfail c h) eqn:Ehf.
+        -- exists (HSetupFail h). eexists. split; [reflexivity|]. cbn [Model.step]. rewrite Ep, Ed, Hh, Ehf. reflexivity.
+        -- exists (HStart h). eexists. split; [reflexivity|]. cbn [Model.step]. rewrite Ep, Ed, Hh, Ehf. reflexivity.
   - congruence.
 Qed.
 
